@@ -101,4 +101,88 @@ theorem C05_arrive_guard_witness :
     have := (h ⟨5, true⟩ rfl).2 rfl
     exact this (by simp [witnessState])
 
+/-! ### noninterference
+
+`AgreeB P b x y`: the two executors agree on whether `b` is alive, on `b`'s registry entry and on
+the selector key, open-ness and epoll interest of every descriptor in `P` (`b`'s descriptors).
+`SepSt P b x`: `b`'s registered descriptors are in `P`, no other work's are.  `SepEnv P b env`: in
+this round `b` reports / opens / closes only descriptors in `P`, every other work (and the
+arriving one) only descriptors outside `P`.  Inside these hypotheses the other works are
+arbitrary: any number, any state, any result or exception of any of their calls. -/
+
+/-- **C05 noninterference (two executors).**  If two executors agree on what concerns `b`, `b`
+behaves the same in both and the kernel reports the same readiness for `b`'s descriptors, then
+after one round of each they agree again on what concerns `b`, `b` was handed exactly the same
+readables / writables (or no task in both), and its event refresh failed in both or in neither —
+whatever else is going on in either executor. -/
+theorem C05_noninterference (p : Fd → Bool) (b : WorkId) (x₁ x₂ y₁ y₂ : Exec) (env₁ env₂ : RoundEnv) (l₁ l₂ : Log)
+    (hi₁ : Inv x₁) (hi₂ : Inv x₂)
+    (hag : AgreeB (fun fd => p fd = true) b x₁ x₂)
+    (hs₁ : SepSt (fun fd => p fd = true) b x₁) (hs₂ : SepSt (fun fd => p fd = true) b x₂)
+    (he₁ : SepEnv (fun fd => p fd = true) b env₁) (he₂ : SepEnv (fun fd => p fd = true) b env₂)
+    (hbeh : env₁.beh b = env₂.beh b)
+    (hready : env₁.ready.filter (fun e => p e.1) = env₂.ready.filter (fun e => p e.1))
+    (h₁ : runOnce x₁ env₁ = .ok (y₁, l₁)) (h₂ : runOnce x₂ env₂ = .ok (y₂, l₂)) :
+    AgreeB (fun fd => p fd = true) b y₁ y₂ ∧ taskOf l₁.tasks b = taskOf l₂.tasks b ∧
+    (b ∈ l₁.failed ↔ b ∈ l₂.failed) ∧
+    SepSt (fun fd => p fd = true) b y₁ ∧ SepSt (fun fd => p fd = true) b y₂ :=
+  round_noninterference p b x₁ x₂ y₁ y₂ env₁ env₂ l₁ l₂ hi₁ hi₂ hag hs₁ hs₂ he₁ he₂ hbeh hready h₁ h₂
+
+/-- **C05 noninterference (alone).**  The projection of a round on `b` — its registry, whether it is
+cleaned up, the events delivered to it, the state of its descriptors — equals the round of the
+executor that contains only `b` (`soloOf b x`: same kernel, only `b`'s registry entry and selector
+keys, no other work, no arrival), given the same behaviour of `b` and the same readiness. -/
+theorem C05_noninterference_solo (p : Fd → Bool) (b : WorkId) (x y : Exec) (env : RoundEnv) (l : Log)
+    (hi : Inv x) (hs : SepSt (fun fd => p fd = true) b x) (he : SepEnv (fun fd => p fd = true) b env)
+    (h : runOnce x env = .ok (y, l)) :
+    ∃ y' l', runOnce (soloOf b x) (soloEnv env) = .ok (y', l') ∧
+      AgreeB (fun fd => p fd = true) b y y' ∧ taskOf l.tasks b = taskOf l'.tasks b ∧
+      (b ∈ l.failed ↔ b ∈ l'.failed) :=
+  solo_noninterference p b x y env l hi hs he h
+
+/-- the separation hypotheses are satisfiable by a non-trivial situation: work 7 with descriptors
+    7 and 9, another work 11 with descriptors 11 and 13 that raises in `get_events`, closes 13 and
+    whose task raises -/
+def sepState : Exec :=
+  { works := [7, 11], registered := [(7, [(7, 1), (9, 3)]), (11, [(11, 1), (13, 1)])],
+    sk := { map := [(7, (1, 7)), (9, (3, 7)), (11, (1, 11)), (13, (1, 11))],
+            k := { open_ := [7, 9, 11, 13], epoll := [(7, 1), (9, 3), (11, 1), (13, 1)] } } }
+
+def sepEnv : RoundEnv :=
+  { beh := fun w => if w = 7 then ⟨.ok [(7, 1), (9, 1)], .fls, [.close 9], ⟨[7, 9], false⟩⟩
+                    else ⟨.exc, .exc, [.close 13], ⟨[11, 13], true⟩⟩,
+    ready := [(7, 1), (13, 1)], arrive := none, prio := [] }
+
+example : SepSt (fun fd => (decide (fd = 7 ∨ fd = 9)) = true) 7 sepState := by
+  constructor
+  · intro fd h
+    simp [sepState, regOf, keysOf, aget_cons] at h
+    simp [h]
+  · intro a ha fd h
+    by_cases e : a = 11
+    · subst e
+      simp [sepState, regOf, keysOf, aget_cons] at h
+      rcases h with h | h <;> simp [h]
+    · have : regOf sepState a = [] := by simp [sepState, regOf, aget_cons, ha, e, Ne.symm ha, Ne.symm e]
+      rw [this] at h; simp [keysOf] at h
+
+example : SepEnv (fun fd => (decide (fd = 7 ∨ fd = 9)) = true) 7 sepEnv := by
+  constructor
+  · intro evs h e he
+    simp [sepEnv] at h; subst h
+    simp at he; rcases he with he | he <;> simp [he]
+  · intro op h
+    simp [sepEnv] at h; subst h
+    exact ⟨9, Or.inl rfl, by simp⟩
+  · intro fd h
+    simp [sepEnv] at h; rcases h with h | h <;> simp [h]
+  · intro a ha evs h
+    simp [sepEnv, ha] at h
+  · intro a ha op h
+    simp [sepEnv, ha] at h; subst h
+    exact ⟨13, Or.inl rfl, by simp⟩
+  · intro a ha fd h
+    simp [sepEnv, ha] at h; rcases h with h | h <;> simp [h]
+  · intro a h; simp [sepEnv] at h
+
 end Px.Exec
